@@ -318,7 +318,9 @@ def check_source(trace, stats=None, cuts=None, corruptions=None):
         tr = {**trace, "fault": {"kind": "crash_prefix", "line": ncut}}
         data = data0[: offs[ncut]]
         endl = []
-        rec = c07.run_load(name, fmt, "load_many", data, ("exhaust", 0), None, budget, endlines=endl)
+        # (the cut file is read with another content of uninitialised memory than the uncut one: frames that were
+        # pre-allocated for more data than arrived must not differ from the frames of the uncut file)
+        rec = c07.run_load(name, fmt, "load_many", data, ("exhaust", 0), {"mem": 1 + ncut % 3}, budget, endlines=endl)
         n_eval += 1
         vs = []
         for v in _generic({**t7, "faults": [{"kind": "crash_prefix", "n": offs[ncut]}]}, rec):
